@@ -15,7 +15,10 @@ MANIFEST = {
             "per-step replay of instrumented schedules (same tie as C01), with monitors for stranded, lost, duplicated and reordered messages. "
             "The mailbox machine treats each of its two queues as an atomic FIFO; both shipped mailboxes use queues.LFQueue, whose FIFO / "
             "exactly-once contract is C15's theorem about the Michael-Scott machine — its tie to the current toolkit/queues/lock_free.go "
-            "(per-step schedule replay, monitors lfq:*) is re-run as part of this check.",
+            "(per-step schedule replay, monitors lfq:*) is re-run as part of this check. "
+            "No model: the real-time stress family harness/cmd/c04esc (workers failing under Resume-always supervisors that decide on other goroutines, "
+            "later serials queued behind every failure; monitors C02:esc:message-stranded, stranded-until-later-traffic, duplicate, order, "
+            "dead-letter-while-alive) as search oracle.",
     "note": "That a script never reuses a serial for the same receiver (freshness of the harness's serial counter) is checked per run, not proved. Liveness is the safety statement "
             "'quiescent => empty' plus assumed scheduler fairness. Same trusted base as C01.",
     "technique": "Coq proof (counter + poised-thread invariants, no-lost-wake-up) + per-step schedule replay of the instrumented source in Coq",
